@@ -164,6 +164,10 @@ def gen_world(rng, focus=None):
         t["fail"] = rng.choice(kinds)
         if t["fail"] == "timeout":
             t["timeout"] = "400ms"
+            # the healthy run of this target must stay far below its timeout also on a loaded machine: no sleep, no background tail
+            t["sleep"] = 0
+            if t.get("tail") == "bg":
+                t["tail"] = "none"
         if t["fail"] in ("check", "check-expected"):
             # the failing check stands at a random position among 1..3 checks; the checks around it pass, each with or without
             # expected_output: every order of (exit-status-only / expected_output) x (passing / failing) is reachable
@@ -980,6 +984,11 @@ def check_build(w, world, b, anc, ids, succeeded_ever, need_run, disturbed, inte
         V("C05", "exit-nonzero-without-failed-target", f"grog exited {rc} without naming a failed target: {out[-300:]}")
     for i in failed_now:
         t = T[i]
+        if t.get("timeout") == "400ms" and f"{name(t)} failed: timeout" in out and i in starts and (i not in exits or exits[i][1] - starts[i][-1] > 0.3e9):
+            # a target with the tight designed timeout whose healthy command really did not reach its end within the timeout (machine under
+            # load): grog is right to fail it — the command exceeded its timeout
+            summ.setdefault("tight_timeouts_under_load", []).append(name(t))
+            continue
         if not designed_fail(w, t) and not (i in exits and exits[i][0] != 0) and not disturbed:
             V("C05", "healthy-target-reported-failed", f"{name(t)} is reported failed although nothing makes it fail: {out[-400:]}")
     # ---- C05: containment ----------------------------------------------------------------------------------------------
